@@ -993,7 +993,7 @@ def gen_queries(rng, fid, n, thorough=False, max_slices=None):
             for s in [None, 1, 2, 3, 4]:
                 for (x, y) in spellings(rng, a, b, n, every=thorough):
                     ks = [None] + list(range(1, n + 2))
-                    for k in (ks if thorough and n <= 5 else [rng.choice(ks)]):
+                    for k in (rng.sample(ks, min(2, len(ks))) if thorough else [rng.choice(ks)]):
                         sl.append(["slice", fid, k, x, y, s])
     if max_slices and len(sl) > max_slices:
         sl = rng.sample(sl, max_slices)
@@ -1314,7 +1314,7 @@ def judge(case, impl, prop):
     return out
 
 
-def shrink(case, fails, budget=40):
+def shrink(case, fails, budget=30):
     """Greedy reduction of a failing case: drop queries, files, adds while `fails(case)` holds."""
     import copy
     best = copy.deepcopy(case)
@@ -1337,6 +1337,17 @@ def shrink(case, fails, budget=40):
             if attempt(c):
                 best = c
                 break
+    # files: keep file 0 (reference of split groups / generator lists) and drop others one at a time
+    if len(best["files"]) > 2 and not any(q[0] == "gen" for q in best.get("queries", [])):
+        for fi in reversed(range(1, len(best["files"]))):
+            if len(best["files"]) <= 2:
+                break
+            c = copy.deepcopy(best)
+            del c["files"][fi]
+            c["queries"] = [q for q in c.get("queries", []) if q[1] != fi]
+            c["queries"] = [[q[0], q[1] - (1 if q[1] > fi else 0)] + q[2:] for q in c["queries"]]
+            if attempt(c):
+                best = c
     changed = True
     while changed and used[0] < budget:
         changed = False
